@@ -433,11 +433,14 @@ pub mod zstd {
     /// selected per harness and named in its evidence:
     ///  * IdentityOrFail: compress copies the block or reports "does not fit" (nondeterministically);
     ///    decompress copies. Lossless, used for round-trips.
+    ///  * Identity / AlwaysFail: the two outcomes of IdentityOrFail as concrete *shapes* (compress always copies /
+    ///    always reports "does not fit"): the block kind is then known to the solver front end, which keeps the
+    ///    decoder's lengths concrete.
     ///  * AnyLength: compress returns ANY length <= input (bytes arbitrary) or fails; decompress returns
     ///    arbitrary bytes of arbitrary length <= the output buffer, or fails. Over-approximates every real
     ///    codec; used for size bounds and decoder robustness.
     #[derive(Clone, Copy, PartialEq, Eq)]
-    pub enum Codec { IdentityOrFail, AnyLength }
+    pub enum Codec { IdentityOrFail, AnyLength, Identity, AlwaysFail }
     pub static mut CODEC: Codec = Codec::IdentityOrFail;
     pub fn set_codec(c: Codec) { unsafe { CODEC = c; } }
     pub const DECOMP_MAX: usize = 8;
@@ -445,10 +448,11 @@ pub mod zstd {
         use super::{Codec, CODEC};
         fn err() -> std::io::Error { std::io::Error::from(std::io::ErrorKind::Other) }
         pub fn compress_to_buffer(src: &[u8], dst: &mut [u8], _level: i32) -> std::io::Result<usize> {
-            let fail: bool = kani::any();
-            if fail { return Err(err()); }
-            match unsafe { CODEC } {
-                Codec::IdentityOrFail => {
+            let codec = unsafe { CODEC };
+            if codec == Codec::AlwaysFail { return Err(err()); }
+            if codec != Codec::Identity { let fail: bool = kani::any(); if fail { return Err(err()); } }
+            match codec {
+                Codec::IdentityOrFail | Codec::Identity | Codec::AlwaysFail => {
                     if dst.len() < src.len() { return Err(err()); }
                     dst[..src.len()].copy_from_slice(src);
                     Ok(src.len())
@@ -462,7 +466,7 @@ pub mod zstd {
         }
         pub fn decompress_to_buffer(src: &[u8], dst: &mut [u8]) -> std::io::Result<usize> {
             match unsafe { CODEC } {
-                Codec::IdentityOrFail => {
+                Codec::IdentityOrFail | Codec::Identity | Codec::AlwaysFail => {
                     if dst.len() < src.len() { return Err(err()); }
                     dst[..src.len()].copy_from_slice(src);
                     Ok(src.len())
